@@ -150,6 +150,16 @@ func (r *renderer) Text(txt []byte, inURL, isSet bool) error {
 // showInURL shows v in a URL in the given context.
 func (r *renderer) showInURL(env *env, v any, ctx ast.Context) error {
 
+	// A value that can only be shown as Markdown, and that the type checker
+	// accepts in a Markdown file, is shown with its Markdown text.
+	switch m := v.(type) {
+	case native.HTML, native.HTMLStringer, native.HTMLEnvStringer, fmt.Stringer, native.EnvStringer, []byte, error:
+	case native.MarkdownStringer:
+		v = string(m.Markdown())
+	case native.MarkdownEnvStringer:
+		v = string(m.Markdown(env))
+	}
+
 	var b strings.Builder
 	err := showInHTML(env, &b, v)
 	if err != nil {
